@@ -44,6 +44,12 @@ def wrap(v, dt):
     m = 1
     for _ in range(bits):
         m = m * 2
+    # in-range values first: keeps the modulo out of the path condition of the common case
+    if dt.signed:
+        if -(m // 2) <= v < m // 2:
+            return v
+    elif 0 <= v < m:
+        return v
     r = v % m
     if dt.signed and r >= m // 2:
         r = r - m
@@ -59,6 +65,12 @@ class VBool:
             if not v:
                 return False
         return True
+
+    def any(self):
+        for v in self.vals:
+            if v:
+                return True
+        return False
 
 
 class VArr:
@@ -116,16 +128,26 @@ class VArr:
     def __lt__(self, o):
         return VBool([v < o for v in self.vals])
 
-    # float kernel of the near-uniform tolerance test: outside the claim.  Its outcome is an arbitrary boolean
-    # (TOLERANCE_ORACLE[0], a symbolic harness argument), so both outcomes are explored wherever it is consulted.
+    # the near-uniform tolerance test: exact rational arithmetic (QArr below); where the exact value is within a
+    # relative 1e-6 of the constant compared against, float rounding could decide either way and the outcome is the
+    # arbitrary boolean TOLERANCE_ORACLE[0] (a symbolic harness argument)
+    def _q(self):
+        return QArr([MedVal(v, 1) for v in self.vals])
+
     def __truediv__(self, o):
-        return _Opaque()
+        return self._q() / o
 
     def __rsub__(self, o):
-        return _Opaque()
+        return o - self._q()
+
+    def __sub__(self, o):
+        return self._q() - o
 
     def __pow__(self, k):
-        return _Opaque()
+        return self._q() ** k
+
+    def __abs__(self):
+        return VArr([(v if v >= 0 else -v) for v in self.vals], self.dtype)
 
 
 def diff(a):
@@ -141,39 +163,282 @@ def unique(a):
 
 
 TOLERANCE_ORACLE = [False]
+EXACT_TOL = [False]      # False: every comparison of derived rationals is the arbitrary oracle (no non-linear terms)
 
 
-class _Opaque:
-    def __truediv__(self, o):
-        return _Opaque()
-
-    def __rsub__(self, o):
-        return _Opaque()
-
-    def __pow__(self, k):
-        return _Opaque()
-
-    def __lt__(self, o):
-        return _Opaque()
-
-    def all(self):
-        return TOLERANCE_ORACLE[0]
+def _as_q(o):
+    if isinstance(o, MedVal):
+        return o
+    if isinstance(o, bool):
+        raise StubGap('arithmetic with a bool')
+    if isinstance(o, int):
+        return MedVal(o, 1)
+    if isinstance(o, float):
+        from fractions import Fraction
+        f = Fraction(o)                       # the exact value of the (concrete) float constant
+        return MedVal(f.numerator, f.denominator)
+    raise StubGap(f'arithmetic with {type(o).__name__}')
 
 
 class MedVal:
-    """Median as an exact fraction num/den; only ``== 0`` is ever asked of it by the code under test."""
+    """An exact rational num/den with den > 0 (num may be a symbolic int): the median, and every value derived from it
+    by the tolerance test."""
 
     def __init__(self, num, den):
         self.num, self.den = num, den
 
     def __eq__(self, o):
-        return self.num == o * self.den
+        o = _as_q(o)
+        return self.num * o.den == o.num * self.den
 
     def __ne__(self, o):
         return not self.__eq__(o)
 
+    def __hash__(self):
+        raise StubGap('hash of a rational')
+
+    def _cmp(self, o):
+        """-1 / 0 / 1 by exact arithmetic; None inside the band where float rounding may decide either way."""
+        if not EXACT_TOL[0] and not isinstance(o, int):
+            return None
+        o = _as_q(o)
+        lhs = self.num * o.den
+        rhs = o.num * self.den
+        gap = lhs - rhs
+        if gap < 0:
+            gap = -gap
+        mag = rhs if rhs >= 0 else -rhs
+        if gap * 1000000 <= mag and gap != 0:
+            return None
+        if lhs < rhs:
+            return -1
+        if lhs > rhs:
+            return 1
+        return 0
+
+    def __lt__(self, o):
+        c = self._cmp(o)
+        return TOLERANCE_ORACLE[0] if c is None else c < 0
+
+    def __le__(self, o):
+        c = self._cmp(o)
+        return TOLERANCE_ORACLE[0] if c is None else c <= 0
+
+    def __gt__(self, o):
+        c = self._cmp(o)
+        return TOLERANCE_ORACLE[0] if c is None else c > 0
+
+    def __ge__(self, o):
+        c = self._cmp(o)
+        return TOLERANCE_ORACLE[0] if c is None else c >= 0
+
+    def __neg__(self):
+        return MedVal(-self.num, self.den)
+
+    def __abs__(self):
+        return MedVal(self.num if self.num >= 0 else -self.num, self.den)
+
+    def __add__(self, o):
+        o = _as_q(o)
+        return MedVal(self.num * o.den + o.num * self.den, self.den * o.den)
+
+    __radd__ = __add__
+
+    def __sub__(self, o):
+        o = _as_q(o)
+        if o.den == 1:
+            return MedVal(self.num - o.num * self.den, self.den)
+        if self.den == 1:
+            return MedVal(self.num * o.den - o.num, o.den)
+        return MedVal(self.num * o.den - o.num * self.den, self.den * o.den)
+
+    def __rsub__(self, o):
+        return _as_q(o) - self
+
+    def __mul__(self, o):
+        o = _as_q(o)
+        return MedVal(self.num * o.num, self.den * o.den)
+
+    __rmul__ = __mul__
+
+    def __truediv__(self, o):
+        o = _as_q(o)
+        if o.num == 0:
+            raise ZeroDivisionError('division by zero')
+        if self.den == 1:
+            if o.num > 0:
+                return MedVal(self.num * o.den, o.num)
+            return MedVal(-(self.num * o.den), -o.num)
+        if o.num > 0:
+            return MedVal(self.num * o.den, self.den * o.num)
+        return MedVal(-(self.num * o.den), -(self.den * o.num))
+
     def __rtruediv__(self, o):
-        return _Opaque()
+        return _as_q(o) / self
+
+    def __pow__(self, k):
+        if k != 2:
+            raise StubGap('power other than 2')
+        return SqVal(self)
+
+
+class SqVal:
+    """q**2 kept unevaluated (a product of two symbolic numbers is non-linear): ``q**2 < c`` is decided as
+    ``|q| < sqrt(c)`` with sqrt(c) enclosed in rationals 1e-6 apart; between them the outcome is the arbitrary oracle."""
+
+    def __init__(self, q):
+        self.q = q
+
+    def _cmp(self, c):
+        if isinstance(c, SqVal):
+            a, b = abs(self.q), abs(c.q)
+            if a.den is b.den:
+                return -1 if a.num < b.num else (1 if a.num > b.num else 0)
+            return a._cmp(b)
+        if not EXACT_TOL[0]:
+            return None
+        if isinstance(c, bool) or not isinstance(c, (int, float)):
+            raise StubGap(f'comparison of a square with {type(c).__name__}')
+        if c < 0:
+            return 1
+        from fractions import Fraction
+        from math import isqrt
+        f = Fraction(c)
+        lo = Fraction(isqrt(f.numerator * 10 ** 12 // f.denominator), 10 ** 6)
+        hi = lo + Fraction(1, 10 ** 6)
+        a = abs(self.q)
+        # |q| = a.num / a.den with a.den > 0
+        if a.num * lo.denominator < lo.numerator * a.den:
+            return -1
+        if a.num * hi.denominator > hi.numerator * a.den:
+            return 1
+        return None
+
+    def __lt__(self, c):
+        r = self._cmp(c)
+        return TOLERANCE_ORACLE[0] if r is None else r < 0
+
+    def __le__(self, c):
+        r = self._cmp(c)
+        return TOLERANCE_ORACLE[0] if r is None else r <= 0
+
+    def __gt__(self, c):
+        r = self._cmp(c)
+        return TOLERANCE_ORACLE[0] if r is None else r > 0
+
+    def __ge__(self, c):
+        r = self._cmp(c)
+        return TOLERANCE_ORACLE[0] if r is None else r >= 0
+
+
+class QArr:
+    """Element-wise exact rationals."""
+
+    def __init__(self, qs):
+        self.qs = list(qs)
+
+    def __len__(self):
+        return len(self.qs)
+
+    def _bin(self, o, f):
+        if isinstance(o, (QArr, VArr)):
+            oq = o.qs if isinstance(o, QArr) else o._q().qs
+            if len(oq) != len(self.qs):
+                raise StubGap('broadcast of different lengths')
+            return QArr([f(self.qs[i], oq[i]) for i in range(len(oq))])
+        return QArr([f(q, o) for q in self.qs])
+
+    def __truediv__(self, o):
+        return self._bin(o, lambda a, b: a / b)
+
+    def __rtruediv__(self, o):
+        return self._bin(o, lambda a, b: b / a)
+
+    def __sub__(self, o):
+        return self._bin(o, lambda a, b: a - b)
+
+    def __rsub__(self, o):
+        return self._bin(o, lambda a, b: b - a)
+
+    def __add__(self, o):
+        return self._bin(o, lambda a, b: a + b)
+
+    __radd__ = __add__
+
+    def __mul__(self, o):
+        return self._bin(o, lambda a, b: a * b)
+
+    __rmul__ = __mul__
+
+    def __pow__(self, k):
+        return QArr([q ** k for q in self.qs])
+
+    def __abs__(self):
+        return QArr([abs(q) for q in self.qs])
+
+    def __neg__(self):
+        return QArr([-q for q in self.qs])
+
+    def __lt__(self, o):
+        return VBool([q < o for q in self.qs])
+
+    def __le__(self, o):
+        return VBool([q <= o for q in self.qs])
+
+    def __gt__(self, o):
+        return VBool([q > o for q in self.qs])
+
+    def __ge__(self, o):
+        return VBool([q >= o for q in self.qs])
+
+    def __eq__(self, o):
+        return VBool([q == o for q in self.qs])
+
+    def max(self):
+        m = self.qs[0]
+        for q in self.qs[1:]:
+            if q > m:
+                m = q
+        return m
+
+    def min(self):
+        m = self.qs[0]
+        for q in self.qs[1:]:
+            if q < m:
+                m = q
+        return m
+
+
+def abs(a):                                   # noqa: A001  (np.abs)
+    return a.__abs__()
+
+
+absolute = abs
+fabs = abs
+
+
+def square(a):
+    return a ** 2
+
+
+def all(a):                                   # noqa: A001
+    return a.all()
+
+
+def any(a):                                   # noqa: A001
+    return a.any()
+
+
+def max(a):                                   # noqa: A001
+    return a.max()
+
+
+def min(a):                                   # noqa: A001
+    return a.min()
+
+
+amax = max
+amin = min
 
 
 class _Med:
@@ -226,3 +491,10 @@ class VArr2D:
 
     def max(self):
         return 500
+
+
+def __getattr__(name):
+    """Anything of numpy that is not modelled: the obligation becomes inconclusive, never a verdict."""
+    if name.startswith('__'):
+        raise AttributeError(name)
+    raise StubGap(f'numpy.{name} is not modelled by npvalues')
